@@ -280,7 +280,7 @@ ADDENDA = {
            "of a field product relation is range-bounded (the unbounded divmod quotient is a recorded known finding with a "
            "forged-witness demonstration); under a guard every constraint is enforced on its own (guard*dummy = 0 per constraint, "
            "shared with C07); assert_zero / assert_nonzero say self = 0 / self*w = 1 on every completing path for a guard of "
-           "value 1; two cheaper one-hot selector designs are accepted through their lemmas (sa/selnorm.py), every hypothesis "
+           "value 1; the non-zero test is the complement of the zero test or the pair x*w = r, x*(1-r) = 0; two cheaper one-hot selector designs are accepted through their lemmas (sa/selnorm.py), every hypothesis "
            "checked.",
     "C03": " Also: a test that skips the range check on unpack is evaluated for every small modulus; declarations are enforced "
            "at every call (memoryless rule); the enforced relation is stated over wires - no trace-time value of an operand "
@@ -297,7 +297,9 @@ ADDENDA = {
     "C07": " Also: emission is memoryless; a raise inside the guarded arm of add_constraint implies the unguarded arm's raise "
            "condition.",
     "C08": " Also: nothing computed from the guard outlives the region (memoryless rule); add_guard is the last fallible step "
-           "of BranchContext.enter; the context-manager protocol is accepted as a release discipline.",
+           "of BranchContext.enter; the context-manager protocol is accepted as a release discipline (single-slot managers fresh "
+           "per `with`, token stacks re-entrant); every completing path of add_guard hands out the saved state and every "
+           "completing path of restore_guard restores it; suppression under a false guard is stored or derived.",
     "C09": " Also: the guard kernel of runtime.py splits on 'a guard is installed', never on its value; constraints emitted in "
            "a branch not taken are satisfied (shared with C07); the merge multiplexer selects exactly (shared with C02).",
     "C10": " Also: the snarkjs linear-combination algebra (shared with C13, incl. exact cancellation) and no table keyed by "
@@ -306,7 +308,8 @@ ADDENDA = {
     "C11": " Also: the zkinterface linear-combination algebra (shared with C13) and no table keyed by hash(value).",
     "C12": " Also: the whole equation line passes one context-consistency check; a block lists exactly the members it is given, "
            "in order; no table keyed by hash(value); every composite name built around a per-context counter contains the "
-           "context (globally unique wire and call names).",
+           "context (globally unique wire and call names); per-function / per-block files are named by the name itself (no "
+           "lossy rewrite on the way to a path).",
     "C13": " An operator that may hand back one of its operands (`return self`) makes every in-place update of its result an "
            "update of an operand (may-alias through operator results).  The merge is executed on four key classes including 'present in both with coefficients cancelling to 0'; a field "
            "selected by name is resolved through the backend's table and compared with the curve's scalar-field order.",
@@ -324,7 +327,8 @@ ADDENDA = {
            "row (pairing of name and module on every outcome, no second assignment of backend, decision order, loud failure "
            "of a named backend, report of an unknown name before auto-detection); the environment is matched against a row only "
            "after a complete scan of the table for pre-imported modules; a report counts only if Python's default warning / "
-           "logging configuration shows it; star imports honour __all__.",
+           "logging configuration shows it; star imports honour __all__; a backend skipped without an import attempt must import "
+           "(and be listed after) the backend whose failure justifies the skip.",
     "C20": " Also: sponge construction (block added to the rate part, capacity element carried over, one permutation per "
            "block, state not kept in a class attribute) and pure rejection sampling of the subset-sum coefficients.",
 }
